@@ -314,7 +314,7 @@ def main(tier):
             c.count(f"kindpair:{i}", False)
 
     # ---- correspondence nodes.validate: synthetic trees
-    nsyn = 1500 if quick else 20000
+    nsyn = 4000 if quick else 40000
     trees = []
     for p, ch in itertools.product(kinds, kinds):
         trees.append("( %s %s )" % (single(p)[2:-2], single(ch)))                     # every pair as a two-node tree
@@ -369,7 +369,7 @@ def main(tier):
                                               "compared": "alignments, num_columns, num_rows, num_nonempty_cells and the number of cells of every row; includes the MAX_AUTOCOMPLETED_CELLS cut-off (1000 columns x 504 one-cell rows)"}
 
     # ---- search on the implementation
-    ndocs = 2600 if quick else 40000
+    ndocs = 7000 if quick else 60000
     cases = []
     for i in range(ndocs):
         r = rng.random()
